@@ -124,8 +124,8 @@ fn oracle(c: &Case, acc: &mut Acc) -> CaseResult {
                     }
                     let n = sn[s];
                     near_boundary |= n >= u64::MAX - 3;
-                    let payload = expand(c.seed, 100 + step as u64, if *kind == 2 { 65520 } else { 9 });
-                    let mut buf = vec![0u8; if *kind == 1 { 20 } else { payload.len() + 16 }];
+                    let payload = expand(c.seed, 100 + step as u64, if *kind == 2 { 65520 } else { [9usize, 0, 1, 16, 9, 200, 9, 5000][(step + c.seed as usize) % 8] });
+                    let mut buf = vec![0u8; if *kind == 1 { payload.len() + 15 - (step % 3).min(payload.len() + 15) } else { payload.len() + 16 }];
                     let res = ts[s].write_message(n, &payload, &mut buf);
                     let evs = new_events(&log, mark);
                     if *kind != 0 {
@@ -153,6 +153,8 @@ fn oracle(c: &Case, acc: &mut Acc) -> CaseResult {
                         continue;
                     }
                     let rec = &sent[s][sent[s].len() - 1 - (*which as usize % sent[s].len())];
+                    // an empty payload has no "one byte too small" buffer
+                    let kind = &(if *kind == 2 && rec.payload.is_empty() { 0u8 } else { *kind });
                     let n = rn[r];
                     near_boundary |= n >= u64::MAX - 3;
                     let msg = match *kind {
@@ -265,8 +267,8 @@ fn oracle(c: &Case, acc: &mut Acc) -> CaseResult {
                     }
                     let n = sn[s];
                     near_boundary |= n >= u64::MAX - 3;
-                    let payload = expand(c.seed, 100 + step as u64, if *kind == 2 { 65520 } else { 9 });
-                    let mut buf = vec![0u8; if *kind == 1 { 20 } else { payload.len() + 16 }];
+                    let payload = expand(c.seed, 100 + step as u64, if *kind == 2 { 65520 } else { [9usize, 0, 1, 16, 9, 200, 9, 5000][(step + c.seed as usize) % 8] });
+                    let mut buf = vec![0u8; if *kind == 1 { payload.len() + 15 - (step % 3).min(payload.len() + 15) } else { payload.len() + 16 }];
                     let res = ts[s].write_message(&payload, &mut buf);
                     let evs = new_events(&log, mark);
                     if *kind != 0 {
@@ -295,6 +297,8 @@ fn oracle(c: &Case, acc: &mut Acc) -> CaseResult {
                         continue;
                     }
                     let rec = &sent[s][sent[s].len() - 1 - (*which as usize % sent[s].len())];
+                    // an empty payload has no "one byte too small" buffer
+                    let kind = &(if *kind == 2 && rec.payload.is_empty() { 0u8 } else { *kind });
                     let n = rn[r];
                     near_boundary |= n >= u64::MAX - 3;
                     let msg = match *kind {
